@@ -8,6 +8,8 @@ import (
 	"strconv"
 	"time"
 
+	"github.com/valyala/fastjson/fastfloat"
+
 	"github.com/cube2222/octosql/execution"
 	"github.com/cube2222/octosql/execution/files"
 	"github.com/cube2222/octosql/octosql"
@@ -74,7 +76,7 @@ func Creator(separator rune) func(ctx context.Context, name string, options map[
 					continue
 				}
 
-				_, err := strconv.ParseInt(str, 10, 64)
+				_, err := fastfloat.ParseInt64(str)
 				if err == nil {
 					if !filled[i] {
 						fields[i] = octosql.Int
@@ -85,7 +87,7 @@ func Creator(separator rune) func(ctx context.Context, name string, options map[
 					continue
 				}
 
-				_, err = strconv.ParseFloat(str, 64)
+				_, err = fastfloat.Parse(str)
 				if err == nil {
 					if !filled[i] {
 						fields[i] = octosql.Float
